@@ -439,10 +439,10 @@ def collect_histories(chk, binary, runs, tag, timeout=180, jobs=None):
         origin = dict(binary=os.path.basename(binary), args=[str(a) for a in runs[i][0]],
                       env=runs[i][1] or {}, rc=rc)
         if rc == 0:
-            recs = [r for r in recs if r.get("e") != "exit"]
+            recs = [r for r in recs if r.get("e") != "proc_exit"]
         else:
             for r in recs:
-                if r.get("e") == "exit":       # the library called exit() on an internal error
+                if r.get("e") == "proc_exit":  # the library called exit() on an internal error
                     r["e"] = "crash"
                     r["rc"] = rc
         complete, tail = split_histories(recs)
